@@ -44,8 +44,10 @@ class Gen:
         if x < .62: return ['o']
         if x < .66: return ['y']
         if x < .74:
-            kind = r.choice([0, 1, 2, 3, 3, 4, 5])
+            kind = r.choice([0, 1, 2, 3, 3, 4, 5, 6, 6, 7])
             n = r.choice([3, 10, 30, 60]) if not self.heavy else r.choice([10, 60, 200, 400])
+            if kind == 7:      # n forced collections
+                n = r.choice([3, 10, 30]) if not self.heavy else r.choice([30, 100, 300])
             return ['w%d,%d' % (kind, n)]
         if x < .80:
             if allowed == 'all': return ['t%d' % r.randrange(NEXN)]
@@ -138,7 +140,8 @@ def gen_case(rng, nworkers=None, size=None, heavy=False, safe=False):
         progs.append(p)
     total = sum(len(p) for p in progs) * 3 + 10
     sched = [rng.randrange(0, nworkers + 1) for _ in range(min(total, 400))]
-    return '%d|%s|%s' % (nmutex, ','.join(map(str, sched)), '|'.join(' '.join(p) for p in progs))
+    # g = the Thread objects are new(Thread, ..): owned by the main thread's collector and reachable from its stack
+    return '%d%s|%s|%s' % (nmutex, 'g' if rng.random() < .5 else '', ','.join(map(str, sched)), '|'.join(' '.join(p) for p in progs))
 
 
 # ------------------------------------------------------------------ transcripts
@@ -402,6 +405,10 @@ def tsan_pass(ctx, cases, run_model, run_spec):
 
 
 CORPUS = [
+    # fixed 6bcc387: the main thread collects (its stack holds the managed Thread objects) while the workers'
+    # TLS tables grow, rehash and shrink — Thread_Mark used to walk the foreign tables (ValueError / SIGSEGV
+    # in the collecting thread, lost TLS bindings in the workers)
+    '1g|0|S1 S2 S3 S4 w7,2000 J1 J2 J3 J4 P1|w6,300 e1|w6,300 e2|w6,300 e3|w6,300 e4',
     # exception nests in two threads + TLS + with-section + trylock section
     '2|1,2,1,2,0|S1 S2 e1 [ t3 e9 ]3 e4 } J1 J2 P1 P2|a1 a0 c s1,5 g1 [ g2 ] } o W0( i0 ) e2 w0,20 w3,30|[ [ t2 ]1 e5 } ] e6 } T1 i1 U1 m1 [ r1 ]0 o } a1 a1 u0 c w4,5',
     # four identical exception-heavy workers (a process-wide exception record would mix them up)
@@ -535,6 +542,7 @@ def run(ctx):
     for i in range(0, len(cases), 100):
         d.feed(cases[i:i + 100])
     ctx.cov['thread_counts'] = sorted(set(c.count('|') - 1 for c in cases))
+    ctx.cov['cases_with_collector_owned_thread_objects'] = sum(1 for c in cases if c.split('|')[0].endswith('g'))
 
     if not quick and not os.environ.get('VERIF_NO_TSAN'):
         tsan_pass(ctx, usable([gen_case(ctx.rng, n, 10, i % 5 == 0, safe) for i, n in enumerate([2, 3, 4, 8, 16] * 30)]),
